@@ -22,6 +22,7 @@ struct string
   string& operator=(const string& o) {e_ = o.e_; return *this;}
   string& operator=(const char* s) {e_ = (s[0] == 0); return *this;}
   bool empty() const {return e_;}
+  const char* c_str() const {return e_ ? "" : "x";}
   static string nondet() {string s; s.e_ = nondet_int() != 0; return s;}
 };
 inline bool operator==(const string& a, const string& b)
